@@ -2,7 +2,7 @@
    which is also what the grammar action stores (LexLiteral.literal_value applied to the lexemes of the scanner). *)
 Require Import List Ascii String Bool Arith NArith ZArith QArith Lia.
 Require Import MPSV.Inline.InlineModel MPSV.Inline.InlineGrammar MPSV.Inline.InlineLR MPSV.Inline.InlineLRSound MPSV.Inline.InlineLRAll
-               MPSV.Inline.LexModel MPSV.Inline.LexSpec MPSV.Inline.LexPipeline MPSV.Inline.LexPipelineProofs MPSV.Inline.LexLiteral.
+               MPSV.Inline.LexModel MPSV.Inline.LexSpec MPSV.Inline.LexPipeline MPSV.Inline.LexPipelineProofs MPSV.Inline.LexLiteralModel MPSV.Inline.LexLiteral.
 Import ListNotations.
 Open Scope list_scope.
 Open Scope string_scope.
